@@ -111,7 +111,21 @@ Call(c, m, idr, cls, fl) ==
                   /\ live' = IF EndRetires(m, idr, cls) /\ Decodable(m, idr, cls) THEN live \ {idr} ELSE live
           /\ up' = up
 
+(* The program's own client mode (run_client): a second process that walks the whole chain through the generated    *)
+(* client stubs - Start, Test01 .. Test09 feeding each reply into the next call, Test10 with more, Test11 oneway with   *)
+(* the ten replies, End.  Net effect on the table: one id issued and retired.  What it prints is its transcript.       *)
+Transcript(k) == <<R("Start", k, FALSE)>>
+                 \o [i \in 1..9 |-> R("Test0" \o ToString(i), 0, FALSE)]
+                 \o [i \in 1..10 |-> R("Test10", i, i < 10)]
+                 \o <<R("Test11", 0, FALSE), R("End", 0, FALSE)>>
+ClientRun ==
+  /\ up /\ Cardinality(live) <= Cap
+  /\ issued' = issued + 1 /\ known' = known \cup {issued + 1}      \* the id was printed: it can be named later, and is retired
+  /\ last' = [replies |-> Transcript(issued + 1), closed |-> FALSE, died |-> FALSE]
+  /\ UNCHANGED <<live, up, copen>>
+
 Next == \/ \E c \in Conns : Open(c) \/ Close(c)
+        \/ (issued < MaxIds /\ ClientRun)
         \/ \E c \in Conns, m \in Methods, idr \in (-2 .. MaxIds), fl \in Flags : \E cls \in Classes(m) :
               issued < MaxIds + (IF m = "Start" THEN 0 ELSE 1) /\ Call(c, m, idr, cls, fl)
 Spec == Init /\ [][Next]_vars
@@ -123,7 +137,7 @@ TypeOK == /\ live \subseteq 1..issued /\ known \subseteq 1..issued /\ issued \in
 StaysUp == up
 (* a oneway call is never answered; continues is set on all replies but the last, and only under more *)
 ReplyShape == LET r == last.replies IN
-              \A i \in 1..Len(r) : r[i].cont = (i < Len(r))
+              \A i \in 1..Len(r) : r[i].cont => (i < Len(r) /\ r[i + 1].t = r[i].t)
 (* an id is live from the Start that issued it to the End that named it, whatever connection is used *)
 Bounded == Cardinality(live) <= Cap + 1
 (* action properties: ids are never re-issued; a retired id stays retired *)
